@@ -162,7 +162,8 @@ def parse_rvalue(s):
         s = s[len('no_retag '):]
     m = re.match(r'^(.*?) as ((?:unsafe )?(?:extern "[^"]*" )?fn\(.*) \(PointerCoercion\((?:ReifyFnPointer|ClosureFnPointer).*\)$', s, re.S)
     if m and not s.startswith(('copy ', 'move ')):
-        return ('use', ('const', m.group(1).strip()))
+        t = m.group(1).strip()
+        return ('use', ('const', t[6:].strip() if t.startswith('const ') else t))
     m = re.match(r'^(\w+)\(', s)
     if m and (m.group(1) in BINOPS or m.group(1) in UNOPS) and match_paren(s, m.end() - 1) == len(s) - 1:
         parts = split_top(s[m.end():-1])
